@@ -45,11 +45,11 @@ def copy_master(master, dst):
 
 
 STORE_DIRS = {
-    "stage-transfer": ["cache"], "index-save": ["cache"], "index-save-sparse": ["cache"], "store-to-store": ["dest"], "upload-staging": ["cache"],
+    "stage-transfer": ["cache"], "index-save": ["cache"], "index-save-sparse": ["cache"], "store-to-store": ["dest"], "store-to-store-expanded": ["dest"], "upload-staging": ["cache"],
     "push-remote": ["dest"], "push-expanded": ["dest"], "add-files": ["cache"],
 }
-NEEDS_SRC = {"store-to-store", "push-remote", "push-expanded"}
-HAS_STATE = {"stage-transfer", "index-save", "index-save-sparse", "store-to-store", "upload-staging", "add-files"}
+NEEDS_SRC = {"store-to-store", "store-to-store-expanded", "push-remote", "push-expanded"}
+HAS_STATE = {"stage-transfer", "index-save", "index-save-sparse", "store-to-store", "store-to-store-expanded", "upload-staging", "add-files"}
 
 
 def make_master(ctx, rng, scenario, d):
@@ -156,8 +156,6 @@ def interesting_kills(events):
         if len(parts) == 3 and len(parts[1]) == 2 and not parts[2].endswith(".tmp"):
             out.add(i)
             out.add(i + 1)
-        if kind in ("chmod", "rename", "copyfile"):
-            out.add(i)
     return {i for i in out if 1 <= i <= len(events)}
 
 
